@@ -226,6 +226,11 @@ def request_mutants(xml, typ, signed, deep):
         z = "%s%02d:%02d" % ("+" if zone >= 0 else "-", int(abs(zone)), int(round((abs(zone) % 1) * 60)))
         yield "issue-instant-" + name, "time", d.set_attr(root, "IssueInstant", clock.iso(local, z=False) + z).text()
         yield "issue-instant-" + name + "-fraction", "time", d.set_attr(root, "IssueInstant", clock.iso(local, z=False) + ".250" + z).text()
+    # the end-of-day spelling (hour 24 of day D is hour 0 of day D+1): instants outside the window whichever way the day is counted
+    for name, delta in (("future", 30 * 3600), ("stale", -4 * 86400)):
+        day = time.strftime("%Y-%m-%d", time.gmtime(now + delta))
+        yield "issue-instant-end-of-day-" + name, "time", d.set_attr(root, "IssueInstant", day + "T24:00:00Z").text()
+        yield "issue-instant-end-of-day-" + name + "-fraction", "time", d.set_attr(root, "IssueInstant", day + "T24:00:00.000Z").text()
     yield "id-removed", "schema", d.set_attr(root, "ID", None).text()
     yield "issue-instant-removed", "schema", d.set_attr(root, "IssueInstant", None).text()
     # wrong root element: same content under another request name
